@@ -56,7 +56,9 @@ func (c *PContacts) More() bool {
 
 // Reset re-initializes the parsed values.
 func (c *PContacts) Reset() {
-	for i := 0; i < c.VNo(); i++ {
+	// also reset the value in progress (Vals[N]): a parse that was abandoned
+	// or failed leaves it half-filled
+	for i := 0; i < len(c.Vals) && i <= c.N; i++ {
 		c.Vals[i].Reset()
 	}
 	v := c.Vals
